@@ -860,7 +860,7 @@ static void __attribute__((noinline)) shape_rooted(int nholders, int depth) {
 /* chain of n links; the collection runs in a child so that a crash of the collector is observed, not suffered */
 static void shape_chain(int n, int kind) {
   fflush(NULL);
-  pid_t pid = fork();
+  pid_t pid = vh_fork();
   if (pid < 0) { vh_info("fork failed"); return; }
   if (pid == 0) {
     var roots[NROOTS];
